@@ -10,6 +10,15 @@ OPTION_REMOVERS = r"VecDeque::<T, A>::(pop_front|pop_back)$"
 CHUNK_WRITERS = r"(impl std::io::Write for std::vec::Vec<u8, A>>::(write|write_all|write_vectored)|Vec::<T, A>::(extend_from_slice|push|append|insert|truncate|clear|drain|pop|resize|extend_from_within)|<std::vec::Vec<T, A> as std::iter::Extend<.*>>::extend)$"
 
 
+CLAIM = {
+    "text": "Static necessary conditions of in-order exactly-once delivery, decided on MIR for every path of the anchored functions: "
+            "IOQueue content changes are coupled with `length`/`offset` updates, the tty is written only from poll's consume_with "
+            "closure, the consumed amount is the tty write's return value, frames_drop keeps the chunk in flight, poll flushes first "
+            "and loops while output is pending. Kernel schedules and chunk-granularity histories are not decided.",
+    "technique": "MIR CFG/effect rules: coupled-update (path) analysis, who-may-call, value-origin dataflow, dominators",
+    "design_ref": "DESIGN.md §5 C16",
+}
+
 def ioqueue_bodies(prog):
     return [b for b in prog.bodies if b.impl_self == "common::IOQueue" and b.kind == "AssocFn"]
 
